@@ -48,7 +48,7 @@ INFO = dict(
          'fake socket handle returning symbolic chunk sizes'],
   assumptions=['A5', 'interfaces written by the harness in generated-code style (harness/gen_svc.py)'],
 )
-EXPECT_COVERS = ['request-oneway', 'request-non-ascii', 'reply-value', 'reply-declared-exception', 'reply-application-exception',
+EXPECT_COVERS = ['binary-client-after-json-builder', 'request-oneway', 'request-non-ascii', 'reply-value', 'reply-declared-exception', 'reply-application-exception',
                  'reply-void', 'reply-missing-result', 'chunk-split-header', 'chunk-eof-midway', 'transport-chunked-reply']
 
 
@@ -72,6 +72,7 @@ def jobs(tier):
     for s in range(1, sz + 1):
       js.append(dict(name='readall-%s-%d' % (impl, s), op='readall', impl=impl, sz=s, cost=2 ** s))
   js.append(dict(name='transport-chunked', op='transport', cost=3000, shards=16, shard_depth=6))
+  js.append(dict(name='after-other-protocol-builder', op='otherbuilder', cost=5))
   return js
 
 
@@ -213,6 +214,25 @@ def make_body(job):
       check('readall.no-overread', hd.pos == sz)
       check('readall.enough-data', eof >= sz)
       if len(hd.sizes) > 1: cover('chunk-split-header')
+    elif op == 'otherbuilder':
+      # another client of the same process was configured with a different protocol first (as ThriftHttp does with the
+      # JSON protocol); a plain Thrift client built afterwards must still speak the binary protocol
+      import io
+      tsink_mod.BytesIO = io.BytesIO
+      from . import stacks
+      from thrift.protocol.TJSONProtocol import TJSONProtocolFactory
+      e = stacks.setup()
+      other = tsink_mod.ThriftSerializerSink.Builder(protocol_factory=TJSONProtocolFactory())
+      script = netm.Script(plan=lambda i, p: ('reply', 0))
+      e.net.endpoint('a', 1, peer=lambda s: netm.ThriftPeer(s, script), connect_delay=0)
+      c = stacks.thrift_client('tcp://a:1', 5)
+      ar = c.hi_async('x')
+      gevent.sleep(3)
+      cover('binary-client-after-json-builder')
+      ev = stacks.events(ar)
+      check('otherbuilder.binary-call-decoded-by-library-processor', len(script.requests) == 1 and script.requests[0][2] == 'hi' and script.requests[0][3] == ['x'])
+      check('otherbuilder.reply-returned', len(ev) == 1 and ev[0][1] == 'value' and ev[0][2] == 'echo:x')
+      c.DispatcherClose()
     elif op == 'transport':
       import io
       tsink_mod.BytesIO = io.BytesIO       # the full stack uses the accelerated codec, which needs a real BytesIO
